@@ -109,7 +109,55 @@ def generate(rng, tier):
                 active[(x, "replica", item)] = set()
             active[(x, kind, item)] = after
             ops.append(["sub" if sub else "unsub", x, kind, item, tag])
-    return {"agents": agents, "ops": ops, "wait_p": rng.choice([0.0, 0.3, 0.7, 1.0])}
+    wait_p = rng.choice([0.0, 0.3, 0.7, 1.0])
+    # drawn last, so that the histories without a hand-over are the ones generated before
+    if rng.random() < 0.25:
+        ops = with_handover(rng, agents, ops)
+    return {"agents": agents, "ops": ops, "wait_p": wait_p}
+
+
+def with_handover(rng, agents, ops):
+    """Turn one un-registration into a hand-over, as after a repair: a new host publishes the
+    computation while the former host's un-publication is still on its way (the two travel on
+    different channels, so the directory may see them in either order; it must end up with the
+    new host).  The former host is an agent that never follows the computation (a host that
+    follows its own computation is the KF-C20-1 family), and the new host un-registers before
+    the history registers the computation again."""
+    cands = [i for i, op in enumerate(ops) if op[0] == "unreg_comp" and not any(
+        o[0] == "sub" and o[1] == op[1] and o[3] == op[2] and o[2] != "agent" for o in ops)]
+    if not cands:
+        return ops
+    i = rng.choice(cands)
+    h, c = ops[i][1], ops[i][2]
+    new = rng.choice(sorted(set(agents) - {h}))
+    nxt = next((j for j in range(i + 1, len(ops)) if ops[j][0] == "reg_comp" and ops[j][2] == c),
+               None)
+    out = ops[:i] + [["reg_comp", new, c]] + ops[i:]
+    if nxt is not None:
+        at = rng.randint(i + 2, nxt + 1)
+        out.insert(at, ["unreg_comp", new, c])
+    elif rng.random() < 0.5:
+        out.insert(rng.randint(i + 2, len(out)), ["unreg_comp", new, c])
+    return out
+
+
+def stale_unregistrations(ops):
+    """Indices of the un-registrations issued by a former host after a hand-over, and of the
+    registrations that start a hand-over."""
+    host, leaving, idx, starts = {}, {}, set(), set()
+    for i, op in enumerate(ops):
+        if op[0] == "reg_comp":
+            if op[2] in host:
+                leaving[op[2]] = host[op[2]]
+                starts.add(i)
+            host[op[2]] = op[1]
+        elif op[0] == "unreg_comp":
+            if leaving.get(op[2]) == op[1]:
+                del leaving[op[2]]
+                idx.add(i)
+            elif host.get(op[2]) == op[1]:
+                del host[op[2]]
+    return idx, starts
 
 
 def shrink_candidates(case):
@@ -130,14 +178,23 @@ def consistent(case):
     would use the API outside its contract (replica of an unregistered computation, ...)."""
     host, replicas, ghosts = {}, collections.defaultdict(set), {}
     subs = {}
+    leaving = {}
     for op in case["ops"]:
         k = op[0]
         if k == "reg_comp":
             if op[2] in host:
-                return False
+                # hand-over: one at a time, to another agent, which never followed the item
+                if op[2] in leaving or host[op[2]] == op[1] or any(
+                        o[0] == "sub" and o[1] == host[op[2]] and o[3] == op[2] and o[2] != "agent"
+                        for o in case["ops"]):
+                    return False
+                leaving[op[2]] = host[op[2]]
             host[op[2]] = op[1]
         elif k == "unreg_comp":
-            if host.get(op[2]) != op[1]:
+            if leaving.get(op[2]) == op[1]:
+                del leaving[op[2]]
+                continue
+            if host.get(op[2]) != op[1] or op[2] in leaving:
                 return False
             del host[op[2]]
         elif k == "reg_replica":
@@ -171,7 +228,7 @@ def consistent(case):
             if op[2] == "computation" and not after and subs.get((op[1], "replica", op[3])):
                 return False
             subs[(op[1], op[2], op[3])] = after
-    return True
+    return not leaving
 
 
 def execute(case, tape):
@@ -233,6 +290,8 @@ def execute(case, tape):
 
             drained = True
             undrained_unreg = set()
+            stale, handover_starts = stale_unregistrations(case["ops"])
+            out["stats"]["handovers"] += len(stale)
             for i, op in enumerate(case["ops"]):
                 # the API contract: a replica is registered for a computation the directory and
                 # the replica host know; a computation has one host at a time, so a new host
@@ -240,14 +299,19 @@ def execute(case, tape):
                 # (in pyDcop: after the repair protocol) -> drain first; likewise an agent name
                 # is published again (by anybody) only once its removal has been processed:
                 # publications from two different agents are not ordered by the transport
-                need = op[0] in ("reg_replica", "unreg_comp", "unreg_agent") or \
-                    (op[0] in ("reg_comp", "reg_agent") and op[2] in undrained_unreg)
+                # (a hand-over is the exception: the former host's un-registration races with
+                # the new host's registration, as it does when an agent leaves during a repair)
+                # Everything issued before the hand-over is processed first, so that only the
+                # two publications race.
+                need = (op[0] in ("reg_replica", "unreg_comp", "unreg_agent") and i not in stale) or \
+                    (op[0] in ("reg_comp", "reg_agent") and op[2] in undrained_unreg) or \
+                    i in handover_starts
                 if need and not drained:
                     b.drain()
                     drained = True
                 if drained:
                     undrained_unreg.clear()
-                if op[0] in ("unreg_comp", "unreg_agent"):
+                if op[0] in ("unreg_comp", "unreg_agent") and i not in stale:
                     undrained_unreg.add(op[2])
                 issued.append((i, drained))
                 run(op)
